@@ -1,16 +1,59 @@
-use self::world::{Searcher, Query, Expr, HashMap as Map, Vec as SVec, String as Tok, Rc as SRc, ResultsWriter};
-fn row(id: u8, key: u8) -> Map<Tok, Tok> { let mut m = Map::new(); m.insert(Tok(9), Tok(id)); m.insert(Tok(5), Tok(key)); m }
-fn query(order_by_count: Option<bool>) -> Query {
+use self::world::{Searcher, Query, Expr, HashMap as Map, Vec as SVec, String as Txt, Rc as SRc, ResultsWriter, num, tok};
+// a buffered row: column "9" = row id, column "5" = first grouping key, column "6" = second grouping key
+fn row(id: u8, k1: Txt, k2: Txt) -> Map<Txt, Txt> { let mut m = Map::new(); m.insert(num(9), num(id)); m.insert(num(5), k1); m.insert(num(6), k2); m }
+fn query(two_keys: bool, order_by: Option<(u8, bool)>) -> Query {
     let mut fields = SVec::new(); fields.push(Expr { id: 5 }); fields.push(Expr { id: 7 });
-    let mut g = SVec::new(); g.push(Expr { id: 5 });
+    let mut g = SVec::new(); g.push(Expr { id: 5 }); if two_keys { g.push(Expr { id: 6 }); }
     let mut of = SVec::new(); let mut oa = SVec::new();
-    if let Some(asc) = order_by_count { of.push(Expr { id: 7 }); oa.push(asc); }
+    if let Some((col, asc)) = order_by { of.push(Expr { id: col }); oa.push(asc); }
     Query { fields, grouping_fields: SRc::new(g), ordering_fields: SRc::new(of), ordering_asc: SRc::new(oa) }
 }
-fn world<'a>(q: &'a Query, keys: [u8; 3]) -> Searcher<'a> {
-    let mut b = SVec::new(); b.push(row(1, keys[0])); b.push(row(2, keys[1])); b.push(row(3, keys[2]));
+fn world<'a>(q: &'a Query, rows: [Map<Txt, Txt>; 3]) -> Searcher<'a> {
+    let mut b = SVec::new(); let [r1, r2, r3] = rows; b.push(r1); b.push(r2); b.push(r3);
     Searcher { query: q, raw_output_buffer: b, partitioned_output_buffer: SRc::new(Map::new()),
                results_writer: ResultsWriter { rows: [(0, 0); 4], n: 0, separators: 0, sep_before_first: false }, evals_with_entry: 0 }
+}
+fn one_key_rows(k: [u8; 3]) -> [Map<Txt, Txt>; 3] { [row(1, num(k[0]), tok("x")), row(2, num(k[1]), tok("x")), row(3, num(k[2]), tok("x"))] }
+// (size of the group of `key`, ids of its rows in order; 0 = none)
+fn group(p: &Map<SVec<Txt>, SVec<Map<Txt, Txt>>>, key: &SVec<Txt>) -> (usize, u8, u8, u8) {
+    match p.get(key) {
+        None => (0, 0, 0, 0),
+        Some(rows) => { let id = |i: usize| match rows.get(i) { Some(r) => r.get(&num(9)).unwrap().value(), None => 0 }; (rows.len(), id(0), id(1), id(2)) }
+    }
+}
+fn k1(v: u8) -> SVec<Txt> { let mut k = SVec::new(); k.push(num(v)); k }
+// C08: one group per distinct key value; every buffered row lands in exactly the group of its own key, in buffer order
+#[kani::proof]
+#[kani::unwind(9)]
+fn c08_partition() {
+    let k: [u8; 3] = kani::any();
+    kani::assume(k[0] >= 1 && k[0] <= 2 && k[1] >= 1 && k[1] <= 2 && k[2] >= 1 && k[2] <= 2);
+    kani::cover!(k[0] == k[2] && k[0] != k[1]);
+    kani::cover!(k[0] == k[1] && k[1] == k[2]);
+    let q = query(false, None);
+    let p = world(&q, one_key_rows(k)).partition_output_buffer();
+    let distinct = if k[0] == k[1] && k[1] == k[2] { 1 } else { 2 };
+    assert!(p.len() == distinct, "OBL C08.partition: one group per distinct key value");
+    let (n1, a1, b1, c1) = group(&p, &k1(1));
+    let (n2, a2, b2, c2) = group(&p, &k1(2));
+    assert!(n1 + n2 == 3, "OBL C08.partition: every row is in exactly one group (group sizes add up to the number of rows)");
+    let in1 = |id: u8| a1 == id || b1 == id || c1 == id;
+    let in2 = |id: u8| a2 == id || b2 == id || c2 == id;
+    assert!(in1(1) == (k[0] == 1) && in2(1) == (k[0] == 2) && in1(2) == (k[1] == 1) && in2(2) == (k[1] == 2) && in1(3) == (k[2] == 1) && in2(3) == (k[2] == 2),
+            "OBL C08.partition: a row is in the group of its own key and in no other");
+    assert!((b1 == 0 || a1 < b1) && (c1 == 0 || b1 < c1) && (b2 == 0 || a2 < b2) && (c2 == 0 || b2 < c2), "OBL C08.partition: rows keep their buffer order inside a group");
+}
+// a pair of keys is a pair: ("a","bc") and ("ab","c") are different groups although their texts concatenate to the same string
+#[kani::proof]
+#[kani::unwind(9)]
+fn c08_partition_pairs() {
+    kani::cover!(true);
+    let q = query(true, None);
+    let p = world(&q, [row(1, tok("a"), tok("bc")), row(2, tok("ab"), tok("c")), row(3, tok("a"), tok("bc"))]).partition_output_buffer();
+    assert!(p.len() == 2, "OBL C08.partition.pairs: two distinct key pairs, two groups");
+    let mut ka = SVec::new(); ka.push(tok("a")); ka.push(tok("bc"));
+    let mut kb = SVec::new(); kb.push(tok("ab")); kb.push(tok("c"));
+    assert!(group(&p, &ka) == (2, 1, 3, 0) && group(&p, &kb) == (1, 2, 0, 0), "OBL C08.partition.pairs: every row in the group of its own key pair");
 }
 // C08: one output row per distinct key value; it shows the key and the aggregate computed over the rows of that group only; the group counts add up to
 // the number of buffered rows; rows are separated, not preceded, by separators
@@ -21,8 +64,8 @@ fn c08_group_rows() {
     kani::assume(k[0] >= 1 && k[0] <= 2 && k[1] >= 1 && k[1] <= 2 && k[2] >= 1 && k[2] <= 2);
     kani::cover!(k[0] != k[1]);
     kani::cover!(k[0] == k[1] && k[1] == k[2]);
-    let q = query(None);
-    let mut w = world(&q, k);
+    let q = query(false, None);
+    let mut w = world(&q, one_key_rows(k));
     w.frag_grouped_output();
     let c1 = (k[0] == 1) as u8 + (k[1] == 1) as u8 + (k[2] == 1) as u8;
     let c2 = 3 - c1;
@@ -42,25 +85,39 @@ fn c08_group_rows() {
     assert!(rw.separators as usize + 1 == rw.n && !rw.sep_before_first, "OBL C08.group.rows: separators between rows only");
     assert!(w.evals_with_entry == 0, "OBL C08.group.rows: group rows are computed from the buffer, not from a directory entry");
 }
-// ORDER BY over an aggregate sorts the group rows (numbers numerically), ascending or descending
+// ORDER BY over an aggregate or over a numeric key sorts the group rows by value (9 before 10), ascending or descending
 #[kani::proof]
 #[kani::unwind(9)]
-fn c08_group_order() {
+fn c08_group_order_desc() {
     kani::cover!(true);
-    let q = query(Some(false));
-    let mut w = world(&q, [1, 2, 2]);      // key 1 -> 1 row, key 2 -> 2 rows; ORDER BY count DESC
+    let q = query(false, Some((7, false)));          // ORDER BY COUNT(*) DESC: key 1 -> 1 row, key 2 -> 2 rows
+    let mut w = world(&q, one_key_rows([1, 2, 2]));
     w.frag_grouped_output();
     assert!(w.results_writer.n == 2 && w.results_writer.rows[0] == (2, 2) && w.results_writer.rows[1] == (1, 1), "OBL C08.group.order: descending by COUNT");
-    let q2 = query(Some(true));
-    let mut w2 = world(&q2, [2, 2, 1]);       // ascending
+}
+#[kani::proof]
+#[kani::unwind(9)]
+fn c08_group_order_asc() {
+    kani::cover!(true);
+    let q2 = query(false, Some((7, true)));
+    let mut w2 = world(&q2, one_key_rows([2, 2, 1]));
     w2.frag_grouped_output();
     assert!(w2.results_writer.n == 2 && w2.results_writer.rows[0] == (1, 1) && w2.results_writer.rows[1] == (2, 2), "OBL C08.group.order: ascending by COUNT");
 }
 #[kani::proof]
 #[kani::unwind(9)]
+fn c08_group_order_key() {
+    kani::cover!(true);
+    let q3 = query(false, Some((5, true)));          // ORDER BY the numeric grouping key: 9 < 10 < 12 (as text: 10 < 12 < 9)
+    let mut w3 = world(&q3, one_key_rows([10, 9, 12]));
+    w3.frag_grouped_output();
+    assert!(w3.results_writer.n == 3 && w3.results_writer.rows[0].0 == 9 && w3.results_writer.rows[1].0 == 10 && w3.results_writer.rows[2].0 == 12, "OBL C08.group.order: a numeric key sorts by value, not as text");
+}
+#[kani::proof]
+#[kani::unwind(9)]
 fn canary_grouprows_must_fail() {
-    let q = query(None);
-    let mut w = world(&q, [1, 2, 1]);
+    let q = query(false, None);
+    let mut w = world(&q, one_key_rows([1, 2, 1]));
     w.frag_grouped_output();
     assert!(w.results_writer.n == 3, "CANARY must fail");
 }
